@@ -29,6 +29,15 @@ Bounded-exhaustive enumeration on the real estimators (quick: arrays (3,2),
             {1,2}, climate classes, compiled vs pure Python
   meta      affine maps x -> a x + b (dyadic, a > 0) per column and all
             column permutations: invariance / equivariance of every estimate
+  scale     beyond the exhaustive bound: coupled AR(1) data sets (tie-free and
+            quantised-with-ties) with T in {40, 130, 131, 136, 300, 320}
+            (thorough also 257, 272, 306, 513, 640) and N = 3..5: binned MI
+            with bins {8, 16, 17, 20, 32} and tau_max in {0, one of 1..4, 5}
+            in the compiled and the pure-Python class and their agreement,
+            Surrogates test matrices (odd and even T; 32 and 17 bins), cross-
+            correlation / Gaussian MI / information transfer, the climate
+            classes on a time axis 1.9e6 + 6k, kNN MI; same oracles
+            (vectorised, cross-checked against the loop versions)
 
 Where a statistic is undefined (constant window: 0/0; |rho| = 1: infinite
 Gaussian MI; collinear conditions; singular covariance) the entry is excluded
@@ -265,19 +274,24 @@ def _gauss_lagfunc(data, tau_max):
     return L, any_const
 
 
-def _check_mi(acc, ca, data, tau_max, estimator, bins):
+def _check_mi(acc, ca, data, tau_max, estimator, bins, fast=False,
+              do_max=True):
     T, N = data.shape
     tag = estimator if estimator == "gauss" else "binning"
     kw = dict(tau_max=tau_max, estimator=estimator)
     if estimator == "binning":
         kw["bins"] = bins
-        L = R.binned_mi_lagfunc(data, tau_max, bins)
+        L = (R.binned_mi_lagfunc_np if fast else R.binned_mi_lagfunc)(
+            data, tau_max, bins)
         any_const = False
     else:
         L, any_const = _gauss_lagfunc(data, tau_max)
     st, G = _call(ca.mutual_information, lag_mode="all", **kw)
-    st2, r = _call(ca.mutual_information, lag_mode="max", **kw)
-    acc.ev += 2
+    if do_max:
+        st2, r = _call(ca.mutual_information, lag_mode="max", **kw)
+    else:
+        st2, r = "skip", None
+    acc.ev += 2 if do_max else 1
     if any_const:
         acc.ex("gauss estimator on a constant window (0/0; the library "
                "raises)", 2)
@@ -307,6 +321,9 @@ def _check_mi(acc, ca, data, tau_max, estimator, bins):
     if not np.allclose(G[:, :, 0], G[:, :, 0].T, atol=ATOL, equal_nan=True):
         acc.v("CouplingAnalysis.mutual_information:symmetry:" + tag,
               "lag 0 slice is not symmetric", G[:, :, 0], None)
+    acc.sig.append(np.round(Lj, 4).tolist())
+    if not do_max:
+        return
     # value / lag at the maximum, against the lag function the library
     # itself reports (same loop, so one defect gives one key)
     S, Lg = np.asarray(r[0], float), np.asarray(r[1])
@@ -325,7 +342,6 @@ def _check_mi(acc, ca, data, tau_max, estimator, bins):
     _check_summary(acc, "CouplingAnalysis.mutual_information:max-summary:"
                    + tag, "tau_max=%d bins=%s" % (tau_max, bins), S, Lg, func,
                    False, offdiag_only=False)
-    acc.sig.append(np.round(Lj, 4).tolist())
 
 
 def _it_lagfunc(data, tau_max, past, cond_mode, exact=True):
@@ -450,7 +466,8 @@ def _pp_expect(C, tau_max, mode):
     raise ValueError(mode)
 
 
-def _pp_check(acc, name, pp, only_tri, C, tau_max, call, is_mi):
+def _pp_check(acc, name, pp, only_tri, C, tau_max, call, is_mi,
+              modes=("all", "sum", "max")):
     n = C.shape[1]
     tri = np.triu(np.ones((n, n), bool), 1) if only_tri else \
         np.ones((n, n), bool)
@@ -459,7 +476,7 @@ def _pp_check(acc, name, pp, only_tri, C, tau_max, call, is_mi):
                "zeros, code mirrors the upper triangle)",
                int((~tri).sum()))
     base = "CouplingAnalysisPurePython.%s:" % name
-    for mode in ("all", "sum", "max"):
+    for mode in modes:
         st, G = _call(call, lag_mode=mode)
         acc.ev += 1
         if st == "exc":
@@ -546,7 +563,7 @@ def fam_purepy(case):
     return acc.result(trivial=all(R.is_const(data[:, i]) for i in range(N)))
 
 
-def _agree(acc, ca, data, bins_menu=(2, 3)):
+def _agree(acc, ca, data, bins_menu=(2, 3), fast=False):
     T, N = data.shape
     pp = _PP(data, False)
     a = np.asarray(ca.cross_correlation(tau_max=0, lag_mode="all"), float)
@@ -567,7 +584,8 @@ def _agree(acc, ca, data, bins_menu=(2, 3)):
               "max,tau_max=0", "|compiled value| vs pure Python value",
               sa, mb[0])
     for bins in bins_menu:
-        Cm = R.pp_mi_lagfunc(data, 0, bins)[0]
+        Cm = (R.pp_mi_lagfunc_np if fast else R.pp_mi_lagfunc)(
+            data, 0, bins)[0]
         m = np.isfinite(Cm)
         if not m.any():
             acc.ex("compiled vs pure-Python MI: premise of equiprobable "
@@ -643,7 +661,9 @@ def _partial_matrix(anom, exact, exact_src=None):
 
 
 def _check_climate(acc, data, time_cycle, exact=True,
-                   classes=("tsonis", "spearman", "partial", "mi")):
+                   classes=("tsonis", "spearman", "partial", "mi"),
+                   mk=None, mi_tol=1e-4):
+    mk = mk or _climate_data
     from pyunicorn import climate
     T, N = data.shape
     table = {"tsonis": climate.TsonisClimateNetwork,
@@ -653,7 +673,7 @@ def _check_climate(acc, data, time_cycle, exact=True,
     for name in classes:
         cls = table[name]
         cname = cls.__name__
-        cd = _climate_data(data, time_cycle)
+        cd = mk(data, time_cycle)
         if time_cycle == 1:
             anom = data - data.mean(axis=0)
             src = data          # correlations do not depend on the mean
@@ -707,7 +727,7 @@ def _check_climate(acc, data, time_cycle, exact=True,
                 c = np.asarray(c, float) - np.mean(c)
                 s = math.sqrt(float(np.mean(c * c)))
                 normed.append(c / s if s > 0 else c * 0.0)
-            want, ok = R.uniform_mi_matrix(normed, normed, 32)
+            want, ok = R.uniform_mi_matrix(normed, normed, 32, tol=mi_tol)
             if not ok:
                 acc.ex("histogram MI: bin assignment depends on rounding or "
                        "degenerate range", N * (N - 1))
@@ -1251,7 +1271,176 @@ def fam_meta(case):
     return acc.result(trivial=all(R.is_const(data[:, i]) for i in range(N)))
 
 
-FAMILIES = {"coupling": fam_coupling, "purepy": fam_purepy,
+# ---------------------------------------------------------------------------
+# larger structured data sets (beyond the exhaustive bound)
+
+SCALE_BINS = (8, 16, 17, 20, 32)
+
+
+def scale_data(T, N, variant):
+    """Deterministic coupled AR(1) columns; 'ties': quantised to halves."""
+    rs = np.random.RandomState(977 * T + N)
+    e = rs.randn(T + 30, N)
+    x = np.zeros((T + 30, N))
+    for t in range(1, T + 30):
+        for c in range(N):
+            x[t, c] = 0.5 * x[t - 1, c] + e[t, c] + (
+                0.45 * x[t - 1, c - 1] if c else 0.0)
+    x = x[30:]
+    if variant == "ties":
+        x = np.round(x * 2.0) / 2.0
+    return np.ascontiguousarray(x)
+
+
+def _scale_taus(T):
+    """tau_max menu: 0, 5 and two values that make the pure-Python window
+    T - 2 tau_max divisible by as many bin numbers as possible."""
+    best = sorted(range(1, 5), key=lambda tm: -sum(
+        1 for b in SCALE_BINS if (T - 2 * tm) % b == 0))
+    return sorted({0, 5, best[0]})
+
+
+def _selftest_fast_oracle(data):
+    for tm, b in ((0, 8), (2, 17)):
+        if not np.allclose(R.binned_mi_lagfunc(data[:, :2], tm, b),
+                           R.binned_mi_lagfunc_np(data[:, :2], tm, b),
+                           atol=1e-12):
+            raise AssertionError("vectorised MI oracle != loop oracle")
+        if not np.allclose(R.pp_mi_lagfunc(data[:, :2], tm, b),
+                           R.pp_mi_lagfunc_np(data[:, :2], tm, b),
+                           atol=1e-12, equal_nan=True):
+            raise AssertionError("vectorised pure-Python MI oracle != loop")
+
+
+def _climate_data_big(data, time_cycle):
+    """ClimateData on a '6-hourly, hours since 1800' time axis."""
+    from pyunicorn.core import GeoGrid
+    from pyunicorn.climate import ClimateData
+    T, N = data.shape
+    grid = GeoGrid(time_seq=1.9e6 + 6.0 * np.arange(T),
+                   lat_seq=np.linspace(-60.0, 60.0, N),
+                   lon_seq=np.linspace(0.0, 300.0, N), silence_level=3)
+    return ClimateData(observable=np.array(data, dtype=float), grid=grid,
+                       time_cycle=time_cycle, silence_level=3)
+
+
+def fam_scale(case):
+    T, N, variant, part = case
+    data = scale_data(T, N, variant)
+    acc = Acc()
+    ca = _CA(data)
+    taus = _scale_taus(T)
+    if part == "cmi":
+        # compiled binned MI, many bins, lags up to 5
+        if T <= 40:
+            _selftest_fast_oracle(data)
+        for bins in SCALE_BINS:
+            for tau_max in taus:
+                _check_mi(acc, ca, data, tau_max, "binning", bins, fast=True,
+                          do_max=(bins == 17 and tau_max == 5))
+    elif part == "pure":
+        for bins in SCALE_BINS:
+            for tau_max in taus:
+                Cm = R.pp_mi_lagfunc_np(data, tau_max, bins)
+                pp = _PP(data, False)
+                modes = ("all", "sum", "max") if bins == 17 and \
+                    tau_max == taus[1] else ("all",)
+                _pp_check(acc, "mutual_information", pp, False, Cm, tau_max,
+                          lambda lag_mode: pp.mutual_information(
+                              bins=bins, tau_max=tau_max, lag_mode=lag_mode),
+                          True, modes=modes)
+                acc.st("pp_premise_holds", int(np.isfinite(Cm).any()))
+        _agree(acc, ca, data, bins_menu=SCALE_BINS, fast=True)
+        C = R.pp_cc_lagfunc(data, 5)
+        pp = _PP(data, False)
+        _pp_check(acc, "cross_correlation", pp, False, C, 5,
+                  lambda lag_mode: pp.cross_correlation(
+                      tau_max=5, lag_mode=lag_mode), False)
+    elif part == "misc":
+        _check_cc(acc, ca, data, 5)
+        _check_mi(acc, ca, data, 5, "gauss", None)
+        for past, cond in ((1, "ity"), (2, "mit")):
+            _check_it_gauss(acc, ca, data, 2, past, cond, exact=False)
+        # climate similarity classes on a realistic time axis
+        _check_climate(acc, data, 1, exact=False, mk=_climate_data_big,
+                       mi_tol=2e-5)
+        if N == 3:
+            _check_climate(acc, data, 4, exact=False,
+                           classes=("tsonis", "mi"), mk=_climate_data_big,
+                           mi_tol=2e-5)
+    elif part == "surr":
+        _scale_surrogates(acc, data)
+    elif part == "knn":
+        for k in (1, 5):
+            L = _knn_lagfunc(data, 1, k,
+                             lambda i, j, tau: [(i, -tau), (j, 0)], 1,
+                             KNN_SEED)
+            np.random.seed(KNN_SEED)
+            st, G = _call(ca.mutual_information, tau_max=1, estimator="knn",
+                          knn=k, lag_mode="all")
+            acc.ev += 1
+            if st == "exc":
+                acc.v("CouplingAnalysis.mutual_information:raises:knn",
+                      "T=%d k=%d: %s" % (T, k, G), G, None)
+            else:
+                _compare_array(acc, "CouplingAnalysis.mutual_information:"
+                               "value:knn", "T=%d N=%d k=%d" % (T, N, k),
+                               G, L, "knn_entries_judged")
+            acc.sig.append(np.round(L, 3).tolist())
+    else:
+        raise ValueError(part)
+    return acc.result()
+
+
+def _scale_surrogates(acc, data):
+    """Test matrices between the normalised data and three deterministic
+    'surrogates' of it (time reversal, circular shift, column rotation)."""
+    from pyunicorn.timeseries import Surrogates
+    T, N = data.shape
+    O = data.T.copy()
+    On, oconst = _normalise_rows(O)
+    off = ~np.eye(N, dtype=bool)
+    variants = {"reversed": O[:, ::-1], "shifted": np.roll(O, T // 3, axis=1),
+                "rotated": np.roll(O, 1, axis=0)}
+    for name, S in variants.items():
+        S = np.ascontiguousarray(S)
+        Sn, sconst = _normalise_rows(S)
+        st, G = _call(Surrogates.test_pearson_correlation, On.copy(),
+                      Sn.copy())
+        acc.ev += 1
+        if st == "exc":
+            acc.v("Surrogates.test_pearson_correlation:raises", G, G, None)
+        else:
+            want = np.array([[R.pearson(O[i], S[j]) if i != j else np.nan
+                              for j in range(N)] for i in range(N)])
+            m = np.isfinite(want)
+            acc.st("surr_pearson_entries_judged", int(m.sum()))
+            if not np.allclose(np.asarray(G, float)[m], want[m], **TOL):
+                acc.v("Surrogates.test_pearson_correlation:value",
+                      "T=%d N=%d surrogate=%s" % (T, N, name), G, want)
+        for nb in (32, 17):
+            want, ok = R.uniform_mi_matrix(On, Sn, nb, tol=1e-9)
+            if not ok:
+                acc.ex("histogram MI: bin assignment depends on rounding or "
+                       "degenerate range")
+                continue
+            st, G = _call(Surrogates.test_mutual_information, On.copy(),
+                          Sn.copy(), n_bins=nb)
+            acc.ev += 1
+            if st == "exc":
+                acc.v("Surrogates.test_mutual_information:raises", G, G,
+                      None)
+                continue
+            G = np.asarray(G, float)
+            acc.st("surr_mi_entries_judged", int(off.sum()))
+            if not np.allclose(G[off], want[off], **TOL):
+                acc.v("Surrogates.test_mutual_information:value:normalised",
+                      "T=%d N=%d n_bins=%d surrogate=%s" % (T, N, nb, name),
+                      G, want)
+        acc.sig.append([name, np.round(On[0, :5], 3).tolist()])
+
+
+FAMILIES = {"scale": fam_scale, "coupling": fam_coupling, "purepy": fam_purepy,
             "climate": fam_climate, "partial": fam_partial, "surr": fam_surr,
             "symabs": fam_symabs, "perms": fam_perms, "knn": fam_knn,
             "fixed": fam_fixed, "meta": fam_meta}
@@ -1320,6 +1509,22 @@ def run(ctx):
     mc += [("fixed", i) for i in (range(12) if thorough else (0, 1, 2, 3))]
     ctx.explore("meta", mc, desc="affine invariance and column-permutation "
                 "equivariance")
+    # beyond the exhaustive bound: long series, many bins, lags up to 5
+    sets = [(40, 3, "ar"), (40, 5, "ar"), (130, 4, "ar"), (131, 3, "ar"),
+            (136, 5, "ar"), (300, 3, "ar"), (300, 5, "ar"), (320, 4, "ar"),
+            (130, 3, "ties"), (300, 4, "ties")]
+    if thorough:
+        sets += [(272, 4, "ar"), (306, 3, "ar"), (257, 5, "ar"),
+                 (640, 3, "ar"), (513, 4, "ties")]
+    sc = [(T, N, v, part) for (T, N, v) in sets
+          for part in ("cmi", "pure", "misc", "surr", "knn")
+          if part != "knn" or N == 3]
+    ctx.explore("scale", sc, chunk=1, desc="structured data sets (T, N, "
+                "variant) %s: binned MI with bins %s and tau_max up to 5 in "
+                "both classes, surrogate test matrices (32 / 17 bins), "
+                "cross-correlation, Gaussian estimates, climate classes, "
+                "kNN" % (sets, list(SCALE_BINS)))
+    ctx.notes["scale_sets"] = [list(x) for x in sets]
     ctx.notes.update({"shapes": shapes, "tau_max": list(TAUS),
                       "knn_datasets": len(list(ids)), "knn_k": [1, 2, 5]})
     ctx.assumptions += [
